@@ -302,7 +302,9 @@ def make_key(tool, r, fam):
     return re.sub(r"\s+", "_", key)
 
 
-EXTRA_MARKS = [("quoted", ("EXPRstring", "EXPRlength", "boundary:quoted")), ("use_cycle", ("SCOPEfind_for_rename", "SCOPE_find_for_rename", "RENAMEresolve", "use_cycle", "imports:")), ("errbuf", ("ERROR_nexterror", "ERROR_vprintf", "ERRORvreport_with_symbol", "errbuf")), ("longexpr", ("exp_output", "format_for_std_stringout")), ("selectsearch", ("EXP_resolve_op_dot_fuzzy", "EXP_resolve_op_group_fuzzy", "EXPresolve_op_dot", "EXPresolve_op_group")),
+EXTRA_MARKS = [("scan_buffers", ("SCANpush_buffer", "SCAN_buffers")), ("open_comment", ("open_comment",)), ("schema_file", ("EXPRESSfind_schema",)),
+               ("schema_path", ("EXPRESS_PATHinit", "exppath")), ("escape_buffer", ("format_for_stringout",)), ("exprto_python", ("EXPRto_python",)),
+               ("quoted", ("EXPRstring", "EXPRlength", "boundary:quoted")), ("use_cycle", ("SCOPEfind_for_rename", "SCOPE_find_for_rename", "RENAMEresolve", "use_cycle", "imports:")), ("errbuf", ("ERROR_nexterror", "ERROR_vprintf", "ERRORvreport_with_symbol", "errbuf")), ("longexpr", ("exp_output", "format_for_std_stringout")), ("selectsearch", ("EXP_resolve_op_dot_fuzzy", "EXP_resolve_op_group_fuzzy", "EXPresolve_op_dot", "EXPresolve_op_group")),
                ("subtype_cycle", ("ENTITYcalculate_inheritance", "ENTITYget_named_attribute", "subtype_cycle")),
                ("wide", ("non_unique_types_string",))]
 
@@ -340,8 +342,8 @@ def report_bad(ctx, run, timeout):
                 data, r = G.shape(fam, mn), mr
             else:
                 mn = n
-        elif isinstance(data, dict):
-            pass            # several files (INCLUDE chains): reported as generated
+        elif isinstance(data, dict) or e["r"].get("env"):
+            pass            # several files (INCLUDE chains) / environment-dependent: reported as generated
         elif r["cls"] != "timeout" and 256 <= len(data) < 400000:
             d2, r2 = minimise_lines(run, data, tool, args, tmo, sig=r["sig"])
             if r2:
@@ -349,7 +351,9 @@ def report_bad(ctx, run, timeout):
         key = make_key(tool, r, fam)
         what = (f"{tool} {' '.join(args)} on {e['tag']}" + (f" (minimal n={mn})" if mn is not None else "") +
                 f": {r['cls']} [{r['sig']}] rc={r['rc']}" + (f"; also {', '.join(e['also'][:6])}" if e["also"] else ""))
-        rep = {"tool": tool, "args": list(args), "class": r["cls"], "signature": r["sig"], "exit": r["rc"],
+        if e["r"].get("env"):
+            what += " with " + ", ".join(f"{k}=<{len(v)} characters>" for k, v in e["r"]["env"].items())
+        rep = {"tool": tool, "args": list(args), "env": e["r"].get("env"), "class": r["cls"], "signature": r["sig"], "exit": r["rc"],
                "family": fam, "n": mn,
                "input_latin1": None if isinstance(data, dict) else (data.decode("latin-1") if len(data) <= 300000 else None),
                "files_latin1": {k: v.decode("latin-1") for k, v in data.items()} if isinstance(data, dict) else None,
@@ -391,7 +395,9 @@ THEOREM_SITE = {
     "C06_inheritance_terminates": ["subtype_cycle"], "C06_named_attribute_terminates": ["subtype_cycle"],
     "C06_no_overflow_non_unique_types": ["wide"], "C06_string_buffer_terminated": ["longexpr"],
     "C06_error_heap_bounded": ["errbuf"], "C06_error_heap_index": ["errbuf"],
-    "C06_rename_search_terminates": ["use_cycle"],
+    "C06_rename_search_terminates": ["use_cycle"], "C06_no_overflow_scan_buffers": ["scan_buffers"], "C06_no_overflow_open_comment": ["open_comment"],
+    "C06_no_overflow_schema_file_name": ["schema_file", "schema_path"], "C06_schema_path_leaf_in_range": ["schema_path"],
+    "C06_no_overflow_escape_buffer": ["escape_buffer"], "C06_no_overflow_exprto_python": ["exprto_python"],
     "C06_select_qualifier_terminates": ["selectsearch"], "C06_nesting_bounded": ["deep_left_sum", "stmt_if", "nested_aggr_type"],
     "C06_nesting_limits_present": ["deep_left_sum", "stmt_if", "nested_aggr_type"], "C06_no_overread_python_indent": ["stmt_if_else"],
 }
@@ -483,6 +489,39 @@ def run(ctx):
                     disagreements.append(("subtype_cycle", n, t, preds, "cyclic SUBTYPE OF accepted"))
             elif r["cls"] not in R.BAD:
                 disagreements.append(("subtype_cycle", n, t, preds, f"{r['cls']} rc={r['rc']}"))
+    # the five small sites of the inventory: model prediction vs the tools at the sizes around each constant
+    def site_check(tag, pred, res_list, marks, what):
+        nonlocal ncomp
+        for r in res_list:
+            ncomp += 1
+            hit = r["cls"] in R.BAD and any(x in r["sig"] + r["err"][:2500] for x in marks)
+            if (mclass(pred) == "overflow") != hit and not (mclass(pred) == "overflow" and r["cls"] in R.BAD):
+                disagreements.append((what, tag, r["tool"], pred, f"{r['cls']} {r['sig']}"))
+    for n in (1, 4, 5, 6, 7, 8, 30):            # SCAN_buffers[6]
+        res = run_.run([(f"boundary:include:{n}", G.include_chain(n, False), None, None)], timeout=tmo)
+        site_check(f"include:{n}", model.one(f"scan {n}"), [res[(f"boundary:include:{n}", t)] for t in R.TOOLS], ("SCANpush_buffer", "SCAN_buffers", "SCANinclude_file"), "scan_buffers")
+    for n in (1, 19, 20, 21, 22, 40, 400):      # open_comment[20]
+        res = run_.run([(f"boundary:nested_comments:{n}", G.nested_comments(n), "nested_comments", n)], timeout=tmo)
+        site_check(f"comments:{n}", model.one(f"comments {n}"), [res[(f"boundary:nested_comments:{n}", t)] for t in R.TOOLS], ("open_comment", "PERPLEX_LEXER_private"), "open_comment")
+    for n in (100, 254, 255, 256, 257, 300, 5000):          # lower[256] / full[256] through USE FROM <long name>
+        res = run_.run([(f"boundary:use_from_long:{n}", G.use_from_long(n), "use_from_long", n)], timeout=tmo)
+        site_check(f"use_from_long:{n}", model.one(f"findschema 0 {n}"), [res[(f"boundary:use_from_long:{n}", t)] for t in R.TOOLS], ("EXPRESSfind_schema", "lower"), "schema_file")
+    for n in (100, 253, 254, 255, 256, 300, 5000):          # Dir.full[256] through EXPRESS_PATH (environment, not file bytes)
+        pred = model.one(f"pathentry {n}")
+        rs = []
+        for t in ("check-express", "exp2cxx"):
+            r = R.run_tool(b, t, G.trivial("use_missing"), ctx.work, timeout=tmo, env_extra={"EXPRESS_PATH": "/" + "d" * (n - 1)})
+            ctx.count(1, key=("exppath", n, t))
+            if r["cls"] in R.BAD:
+                run_.bad.append((f"exppath:{n}", G.trivial("use_missing"), None, None, dict(r, env={"EXPRESS_PATH": "/" + "d" * (n - 1)})))
+            rs.append(r)
+        site_check(f"exppath:{n}", pred, rs, ("EXPRESS_PATHinit", "EXPRESSinitialize"), "schema_path")
+    for n in (100, 4096, 8190, 8191, 8192, 8193, 20000):    # format_for_stringout buffer
+        res = run_.run([(f"boundary:escape_backslash:{n}", G.escape_heavy("backslash", n), "escape_backslash", n)], tools_of=lambda tg, f: ["exp2cxx"], timeout=tmo)
+        site_check(f"escape:{n}", model.one(f"escape {n + 2} {n}"), [res[(f"boundary:escape_backslash:{n}", "exp2cxx")]], ("format_for_stringout", "ENTITYincode_print"), "escape_buffer")
+    for n in (100, 99990, 99996, 99999, 100000, 100010, 120000):   # EXPRto_python
+        res = run_.run([(f"boundary:bound_string_arg:{n}", G.bound_expr("string_arg", n), "bound_string_arg", n)], tools_of=lambda tg, f: ["exp2python"], timeout=tmo)
+        site_check(f"pycall:{n}", model.one(f"pycall 2 {n + 2},2"), [res[(f"boundary:bound_string_arg:{n}", "exp2python")]], ("EXPRto_python", "process_aggregate"), "exprto_python")
     # string literals with apostrophes wherever the printers measure or print an expression: EXPRstring vs EXPRstring_bound
     sizes = [(100, 1.0), (5000, 0.5), (6000, 1.0), (9900, 0.05), (9900, 1.0), (12000, 0.5)] if quick else \
             [(n, d) for n in (100, 127, 5000, 6000, 9871, 9900, 12000, 60000) for d in (0.0, 0.02, 0.5, 1.0)]
@@ -750,7 +789,7 @@ def replay(ctx, path):
         data = r["input_latin1"].encode("latin-1")
     else:
         data = G.shape(r["family"], r["n"])
-    res = R.run_tool(b, r["tool"], data, ctx.work, timeout=120, args=tuple(r.get("args", ())))
+    res = R.run_tool(b, r["tool"], data, ctx.work, timeout=120, args=tuple(r.get("args", ())), env_extra=r.get("env"))
     ctx.count(1, key=("replay", r["tool"]))
     print(f"[C06] replay: {r['tool']} -> {res['cls']} rc={res['rc']} {res['sig']}", flush=True)
     if res["cls"] in R.BAD:
